@@ -155,13 +155,13 @@ def gen_tree(tier, seed):
             add(sn, sb, net, [])
         for a in alpha:
             add(sn, sb, "mainnet", [a])
-    deep2 = seeds if tier == "thorough" else [s for s in seeds if s[0] in ("z16", "r32")]
-    for sn, sb in deep2:
+    deep2 = ("z16", "r32") if tier == "quick" else ("z16", "r32", "r17", "r33", "r63", "z64")
+    for sn, sb in [s for s in seeds if s[0] in deep2]:
         for pth in itertools.product(alpha, repeat=2):
             add(sn, sb, "mainnet" if sn != "r32" else "testnet", pth)
     if tier == "thorough":
         for sn, sb in [s for s in seeds if s[0] in ("f64", "r16")]:
-            for pth in itertools.product(alpha, repeat=3):
+            for pth in itertools.product(BOUNDARY, repeat=3):
                 add(sn, sb, "mainnet", pth)
     return cases
 
@@ -244,9 +244,9 @@ def gen_paths(tier, seed):
         for pth in DEEP8:
             add("r64", "mainnet", pth, [["m", "h"], ["M", "mix"], ["M", "'"]])
     else:
-        for sn, net in (("r16", "mainnet"), ("f64", "testnet"), ("r33", "regtest")):
+        for sn, net, depths in (("r16", "mainnet", (1, 2, 3)), ("f64", "testnet", (1, 2, 3)), ("r33", "regtest", (1, 2))):
             add(sn, net, [])
-            for d in (1, 2, 3):
+            for d in depths:
                 for pth in itertools.product(BOUNDARY, repeat=d):
                     add(sn, net, pth)
         fi = fillers_idx(seed)
@@ -702,8 +702,8 @@ def engines(tier, seed):
             kind="E1",
             chunk=1,
             rule="secp256k1. seeds (16/32/64 bytes quick; 16,17,31,32,33,48,63,64 thorough; all-zero, all-ff and seed-dependent fillers) x 4 networks at the root, "
-            "x every parent path of depth <= 1 (all seeds), depth 2 (2 seeds quick / all thorough), depth 3 (2 seeds, thorough) over {0,1,2^31-1,2^31,2^31+1,2^32-1} "
-            "(+2 filler indexes thorough); every parent x every child index of that alphabet + 2 fillers. Non-trivial = one (seed, network, parent path, child index) "
+            "x every parent path of depth <= 1 (all seeds), depth 2 (2 seeds quick / 6 thorough) over {0,1,2^31-1,2^31,2^31+1,2^32-1} (+2 filler indexes thorough), "
+            "depth 3 over the 6 boundary indexes (2 seeds, thorough); every parent x every child index of that alphabet + 2 fillers. Non-trivial = one (seed, network, parent path, child index) "
             "derivation compared field by field with the reference (private), plus the public derivation / hardened refusal of the same child",
         ),
         Engine(
@@ -712,8 +712,9 @@ def engines(tier, seed):
             run_paths,
             kind="E1",
             chunk=1,
-            rule="secp256k1. every path of depth <= 2 (quick; <= 3 thorough) over the 6 boundary indexes for 2 (3) seeds, written in every distinct notation "
-            "{m,M} x {',h,H,mixed}; quick adds all depth-3 paths over {0,2^31-1,2^31,2^32-1} in 3 notations and 4 depth-8 paths; thorough adds depth 4..8. "
+            rule="secp256k1. every path of depth <= 2 over the 6 boundary indexes (quick: 1 seed + depth 1 for a second; thorough: 3 seeds, and every depth-3 path for 2 of them), "
+            "written in every distinct notation {m,M} x {',h,H,mixed}; quick adds all depth-3 paths over {0,2^31-1,2^31,2^32-1} in 2 notations and 4 depth-8 paths in 3 notations; "
+            "thorough adds 6 depth-8 paths and depth 4..7 prefixes for 3 seeds in every notation. "
             "traverse(string) == fold of child() == reference on the private side; public traverse == reference / refused when a component is hardened. "
             "Non-trivial = one (root, path, string) traversal of depth >= 1",
         ),
